@@ -101,6 +101,7 @@ static int choose_next(int site)
             break;
     }
     if (step < SCHED_MAX_DECISIONS) decisions[step] = (uint8_t)pick;
+    if (vh_opts.verbose > 2) fprintf(stderr, "sched: step %u site %d cur T%d -> T%d\n", step, site, current, pick);
     ndecisions_total++;
     res->decisions++;
     res->hash = (res->hash ^ (uint64_t)(pick + 1)) * 0x100000001b3ULL;
